@@ -3,6 +3,7 @@
 package curve
 
 import (
+	"github.com/oasisprotocol/curve25519-voi/curve/scalar"
 	"github.com/oasisprotocol/curve25519-voi/internal/field"
 	"github.com/oasisprotocol/curve25519-voi/internal/verif"
 )
@@ -58,10 +59,27 @@ func edD() verif.Int {
 // x^2 * (d*y^2 + 1) = y^2 - 1 with y = le(bytes) mod 2^255 mod p, x has the requested sign unless x = 0,
 // Z = 1, T = x*y; the receiver is untouched on failure.
 //
-//verif:ob prop=C10 name=SetCompressedY mode=int tags=purego,force32bit use=fa
+//verif:ob prop=C10 name=SetCompressedY mode=int tags=purego,force32bit use=fa native=1
 func vh_SetCompressedY() {
 	var cy CompressedEdwardsY
 	verif.AnyBytes("cy", cy[:])
+	if verif.Native() {
+		// end-to-end statement for the native search: a failed decode leaves the receiver exactly as it was;
+		// a successful one re-encodes to the canonical form of the same (y, sign)
+		var p EdwardsPoint
+		p.Identity()
+		r, err := p.SetCompressedY(&cy)
+		if err != nil {
+			verif.Assert(r == nil && p.IsIdentity() && field.VerifSame(&p.inner.X, &constIdentityX) && field.VerifSame(&p.inner.T, &constIdentityX), "receiver untouched on failure")
+			return
+		}
+		var back CompressedEdwardsY
+		back.SetEdwardsPoint(&p)
+		var again EdwardsPoint
+		_, err2 := again.SetCompressedY(&back)
+		verif.Assert(err2 == nil && again.Equal(&p) == 1, "decode(encode(decode(b))) = decode(b)")
+		return
+	}
 	var p EdwardsPoint
 	p.Identity()
 	before := p
@@ -162,8 +180,22 @@ func vh_CompressedSetBytes() {
 
 // IsIdentity answers "affine point (0, 1)" for every projective representative (Z != 0) of every point.
 //
-//verif:ob prop=C10,C03 name=L1_IsIdentity mode=int tags=purego,force32bit use=fa
+//verif:ob prop=C10,C03 name=L1_IsIdentity mode=int tags=purego,force32bit use=fa native=1
 func vh_C10_IsIdentity() {
+	if verif.Native() {
+		// native search: any decodable string; IsIdentity / Equal agree with the canonical encoding
+		var cy, enc, idEnc CompressedEdwardsY
+		verif.AnyBytes("cy", cy[:])
+		var p, id EdwardsPoint
+		if _, err := p.SetCompressedY(&cy); err != nil {
+			return
+		}
+		id.Identity()
+		enc.SetEdwardsPoint(&p)
+		idEnc.SetEdwardsPoint(&id)
+		verif.Assert(p.IsIdentity() == (enc == idEnc) && (p.Equal(&id) == 1) == (enc == idEnc), "IsIdentity / Equal(identity) iff the canonical encoding is the identity's")
+		return
+	}
 	var a EdwardsPoint
 	g := ghostPoint(&a, "a")
 	P := field.VerifP()
@@ -185,12 +217,38 @@ func vh_C10_predicates() {
 	verif.Assert(kEq(lastIdentityArg, kScale(kGen(0), 8)), "IsSmallOrder tests [8]P for the identity")
 }
 
+var constIdentityX field.Element // zero
+
 var lastIdentityArg kvec
 
 //verif:contract for=(*curve.EdwardsPoint).IsIdentity group=ptid
 func ptid_IsIdentity(p *EdwardsPoint) bool {
 	lastIdentityArg = getK(p)
-	return verif.FreshBool()
+	k := getK(p)
+	return verif.UFIntBool("is_identity_of", k[0], k[1], k[2])
+}
+
+//verif:contract for=(*curve.EdwardsPoint).Mul group=ptid
+func ptid_Mul(p, point *EdwardsPoint, s *scalar.Scalar) *EdwardsPoint {
+	var b [32]byte
+	_ = s.ToBytes(b[:])
+	k := kScaleI(getK(point), verif.IntLE(b[:]))
+	verif.Havoc(p)
+	setK(p, k)
+	return p
+}
+
+// IsTorsionFree(P) is exactly "[L]P is the identity" - in particular true for the identity itself.
+//
+//verif:ob prop=C10,C03 name=torsion_free_predicate mode=int tags=purego use=pt,ptid
+func vh_C10_torsionFree() {
+	a := any_EdwardsPoint("a")
+	verif.Assume(cls_EdwardsPoint(a))
+	setK(a, kGen(0))
+	got := a.IsTorsionFree()
+	L := verif.IntLit("7237005577332262213973186563042994240857116359379907606001950938285454250989")
+	want := verif.UFIntBool("is_identity_of", L, verif.IntK(0), verif.IntK(0))
+	verif.Assert(got == want, "IsTorsionFree(P) = IsIdentity([L]P) and nothing else")
 }
 
 var lastCY CompressedEdwardsY
